@@ -750,7 +750,7 @@ def lab_run(ctx, s, prefix, cli_bin, runner_bin):
     lab = os.path.join(vt.VERIF, 'lab', 'lab.sh')
     n = s['n']
     vt.sh([lab, 'down', prefix, str(n)])
-    p = vt.sh([lab, 'up', prefix, str(n)] + [str(x) for x in s['silent']], env=dict(os.environ, LAB_REJECT=str(s.get('reject') or 0), LAB_ASYM='1' if s.get('asym') else '0'))
+    p = vt.sh([lab, 'up', prefix, str(n)] + [str(x) for x in s['silent']], env=dict(os.environ, LAB_REJECT=str(s.get('reject') or 0), LAB_ASYM='1' if s.get('asym') else '0', LAB_OUTDROP=str(s.get('outdrop') or 0)))
     lis = None
     try:
         if p.returncode != 0:
